@@ -40,6 +40,7 @@ class DemoWorld(world.World):
         for op in base_hist:
             self.basew.apply(tuple(op), spec)
         self.kind = 'D(%s,%s)' % (basekind, changeskind)
+        self.changes_kind = changeskind
         self.changeskind = changeskind
         self.dir = env.new_dir('dw')
         self.path = os.path.join(self.dir, 'Changes.fs')
@@ -111,6 +112,10 @@ class DemoWorld(world.World):
                 # garbage collection (with nothing in the base, collecting
                 # these root-less objects would be right)
                 ops.append(('packdb',))
+            if k == 'pack' and self.changes_kind != 'T':
+                # garbage collection asked for over changes that were
+                # handed in: refused - and then nothing has happened
+                ops.append(('packgc',))
         if 'push' in spec.kinds and len(self.push_stack) < 1:
             ops.append(('push',))
         if 'pop' in spec.kinds and self.push_stack:
@@ -138,7 +143,7 @@ class DemoWorld(world.World):
             self.flavor = self.model.flavor = flavor
             self.model.undo_floor = floor
             return 'pop'
-        if op[0] in ('pack', 'packdb'):
+        if op[0] in ('pack', 'packdb', 'packgc'):
             return self._pack(op, spec)
         return super()._apply(op, spec)
 
@@ -162,6 +167,11 @@ class DemoWorld(world.World):
             if not self.packed else None
         if op[0] == 'pack':
             r = call(self.storage.pack, env.CLOCK.now, referencesf, gc=False)
+        elif op[0] == 'packgc':
+            r = call(self.storage.pack, env.CLOCK.now, referencesf, gc=True)
+            if not isinstance(r, Exc):
+                self.bad('read', '%s:pack-with-gc-accepted' % self.kind,
+                         dict(op=op))
         else:
             r = call(self.storage.pack, env.CLOCK.now, referencesf)
         post_cur = current()
